@@ -814,6 +814,7 @@ int main(int argc, char **argv)
         {
             int j;
             long bad = 0, cmp = 0;
+            g_replay_mode = 1;
             run_bundle(&pc);
             for (j = 0; j < B.nf; j++)
             {
